@@ -100,9 +100,9 @@ def gen_world(rng, index):
     material = mat if len(mat) > 1 else mat["name"]
     # data
     n = rng.randint(3, 25)
-    scale_p = 10 ** rng.uniform(-3, 1.5)
+    scale_p = 10 ** (rng.uniform(-9, -3) if rng.random() < 0.25 else rng.uniform(-3, 1.5))   # incl. high-vacuum points
     scale_l = 10 ** rng.uniform(-2, 1.5)
-    integer_data = rng.random() < 0.08
+    integer_data = rng.random() < 0.12
     p, l = [], []
     cp, cl = 0.0, 0.0
     for _ in range(n):
@@ -111,16 +111,22 @@ def gen_world(rng, index):
         p.append(cp * scale_p)
         l.append(cl * scale_l)
     if integer_data:
-        p = [float(i + 1) for i in range(n)]
-        l = [float(2 * i + 1) for i in range(n)]
+        # integer-valued columns; half of the time as true integers (int64 columns in the frame)
+        as_int = rng.random() < 0.5
+        p = [(i + 1) if as_int else float(i + 1) for i in range(n)]
+        l = [(2 * i + 1) if as_int else float(2 * i + 1) for i in range(n)]
     if rng.random() < 0.4 and n >= 4:
         m = rng.randint(1, n - 2)
         for j in range(m):
             src = n - 2 - j
             if src < 0:
                 break
-            p.append(p[src] * rng.uniform(0.96, 0.999))
-            l.append(l[src] * rng.uniform(1.001, 1.2))
+            if integer_data:
+                p.append(p[src])
+                l.append(l[src] + 1)
+            else:
+                p.append(p[src] * rng.uniform(0.96, 0.999))
+                l.append(l[src] * rng.uniform(1.001, 1.2))
     npts = len(p)
     bsel = rng.choices(["guess", "ads", "des", "list"], [50, 20, 10, 20])[0]
     branch = bsel
@@ -478,6 +484,85 @@ class Oracle:
                     self.fail("bystander-label-changed", f"after={opc} label={k}", {"before": before, "after": after})
                     return
 
+    # "converting back restores the original numbers" / a possible conversion is performed -----------------
+    def _regular(self, lab):
+        """Are all current unit labels regular (known unit of the labelled basis)?"""
+        t = self.tables
+        if lab["pressure_mode"] == "absolute" and lab["pressure_unit"] not in t.pressure:
+            return False
+        if lab["pressure_mode"] not in ("absolute", "relative", "relative%"):
+            return False
+        mu = t.material_units(lab["material_basis"])
+        if mu is None or lab["material_unit"] not in mu:
+            return False
+        if lab["loading_basis"] not in ("percent", "fraction"):
+            lu = t.loading_units(lab["loading_basis"])
+            if lu is None or lab["loading_unit"] not in lu:
+                return False
+        return True
+
+    def step_possible(self, lab, group, basis_to, unit_to):
+        """Conservative: True only if the fully specified single-quantity step from the (regular) labels `lab`
+        is possible through the direct factor the library itself uses, with every needed constant known."""
+        t = self.tables
+        m = self.model
+        if not self._regular(lab):
+            return False
+        if group == "pressure":
+            if basis_to not in ("absolute", "relative", "relative%"):
+                return False
+            if basis_to == "absolute" and unit_to not in t.pressure:
+                return False
+            a1, a2 = lab["pressure_mode"] == "absolute", basis_to == "absolute"
+            return True if a1 == a2 else self.model.c.get("saturation_pressure") is not None
+        ads = m._ads_edges()
+        mat = m._mat_edges()
+        if group == "loading":
+            f1 = lab["loading_basis"] in ("percent", "fraction")
+            f2 = basis_to in ("percent", "fraction")
+            if not f2:
+                lu = t.loading_units(basis_to)
+                if lu is None or unit_to not in lu:
+                    return False
+            e1 = m._eff_basis(lab["loading_basis"], lab["material_basis"])
+            e2 = m._eff_basis(basis_to, lab["material_basis"])
+            return e1 == e2 or (e1, e2) in ads
+        if group == "material":
+            mu = t.material_units(basis_to)
+            if mu is None or unit_to not in mu:
+                return False
+            if basis_to == lab["material_basis"]:
+                return True
+            if (lab["material_basis"], basis_to) not in mat:
+                return False
+            if lab["loading_basis"] in ("percent", "fraction"):
+                e1 = m._eff_basis("fraction", lab["material_basis"])
+                e2 = m._eff_basis("fraction", basis_to)
+                return e1 == e2 or (e1, e2) in ads
+            return True
+        return False
+
+    def check_refusal_justified(self, op, before, opc, err):
+        """A fully specified, valid conversion whose every factor is available must be carried out."""
+        o = op["op"]
+        if o in ("convert_pressure", "convert_loading", "convert_material") and op.get("cls") == "valid":
+            g = o.split("_")[1]
+            b = op.get("mode_to") if g == "pressure" else op.get("basis_to")
+            if self.step_possible(before, g, b, op["unit_to"]):
+                self.fail("possible-conversion-refused", f"after={opc} error={err[1]}", {"before": before, "op": op})
+        elif o == "return":
+            kw = op["kw"]
+            lab = dict(before)
+            if not self.step_possible(lab, "pressure", kw["pressure_mode"], kw["pressure_unit"]):
+                return
+            lab["pressure_mode"], lab["pressure_unit"] = kw["pressure_mode"], kw["pressure_unit"]
+            if not self.step_possible(lab, "material", kw["material_basis"], kw["material_unit"]):
+                return
+            lab["material_basis"], lab["material_unit"] = kw["material_basis"], kw["material_unit"]
+            if not self.step_possible(lab, "loading", kw["loading_basis"], kw["loading_unit"]):
+                return
+            self.fail("possible-conversion-refused", f"after={opc} error={err[1]}", {"before": before, "op": op})
+
     # clauses 4 and 6 --------------------------------------------------------
     def diff_snap(self, a, b, ignore_cols=(), ignore_labels=(), ignore_temp=False):
         ch = []
@@ -655,6 +740,8 @@ def execute(world, consts, rs=None, ops=None, n_ops=None):
                     count("probe:refusal-inside-convert-after-completed-step")
             else:
                 orc.check_refused_single(before_s, after_s, opc, err)
+            if orc.viol is None:
+                orc.check_refusal_justified(op, before, opc, err)
         else:
             count("accepted")
             valid = orc.check_valid(iso, opc)
